@@ -19,7 +19,8 @@ Decided here:
           missing from the context and copies exactly the context's set; extend_context_with_wild_cards installs the
           set under the key that the wild-card terminal prints as, together with its counter, and the domain sets
           under their label; a wild-card terminal is served by the cache-hit path only;
-  C02-R5  scope pairing (shared with C04-R1);
+  C02-R5  scope pairing (shared with C04-R1), and evaluating a jump `@{x}:` leaves the scope entry of x alone (it belongs to the
+          quantifier of x; a jump that rewrites or removes it changes the restriction the cache keys name);
   C02-R6  a value computed inside a restricted scope is neither stored nor served under a key that does not name the
           restriction (cache admission guard, shared with C04-R3).
           wild-card sets cannot be recomputed: their cache entries are never evicted and every hit is counted once (shared with C04-R5).
